@@ -14,8 +14,8 @@ import ast
 from .. import astutil as A
 from ..fa import FA
 from ..loader import AnalysisError
-from .c15 import (FRAME, absent_edges, alias_text, batch_seqs, body_starts, call_batch_dispatch, enclosing_position, expand_alias, heads_of,
-                  is_calling_frame, not_edges, origins, position_loops, result_loops, result_name)
+from .c15 import (FRAME, absent_edges, none_test, alias_text, batch_seqs, body_starts, call_batch_dispatch, enclosing_position, expand_alias, heads_of,
+                  is_calling_frame, iteration_counts, nfa, normal_form, not_edges, origins, position_loops, presence_atom, pushes, rebinds_local, choose, unwrap_copy, result_loops, result_name, sense, under)
 
 RL = "runner_local"
 INV_LIST = ("invocation_metadata", "invocations")
@@ -29,12 +29,13 @@ OWN_REF = ("invocation_metadata", "fn_reference_with_args")
 class Site:
     """One place where a callee's provenance is written into a caller's memento."""
 
-    def __init__(self, anchor, inline, caller_src, caller, result, at, parts):
+    def __init__(self, anchor, inline, caller_src, caller, result, at, parts, result_src=None):
         self.anchor = anchor          # AST node the obligations are keyed on
         self.inline = inline          # written out in place (True) / a call of propagate_dependencies (False)
         self.caller_src = caller_src  # the expression (as written) through which the caller's memento is reached
         self.caller = caller          # expanded expression denoting the caller's memento (None: not recognisable)
         self.result = result          # expanded expression denoting the callee's memento (None: not recognisable)
+        self.result_src = result_src  # ... as written (roles are decided on the expression in place)
         self.at = at
         self.parts = parts            # node-id lists: [call] or [append, add, merge]
 
@@ -76,9 +77,23 @@ def set_updates(fa):
             x = _single(c.args[0])
             out.append((fa.nodes(c), c.func.value, "elem" if x is not None else "union", x if x is not None else c.args[0]))
     for s in fa.stmts(ast.AugAssign):
-        if isinstance(s.op, ast.BitOr) and fa.nodes(s):
+        if isinstance(s.op, ast.BitOr) and fa.nodes(s) and not rebinds_local(fa, s):
             x = _single(s.value)
             out.append((fa.nodes(s), s.target, "elem" if x is not None else "union", x if x is not None else s.value))
+    # `for x in T: s.add(x)` (on every iteration, x being the loop's own variable)  ==  s |= T
+    looped = []
+    for (ids, r, kind, x) in out:
+        lp = fa.enclosing(fa.cfg.node(ids[0]).ast, ast.For) if kind == "elem" and isinstance(x, ast.Name) else None
+        if lp is not None and isinstance(lp.target, ast.Name) and lp.target.id == x.id and not lp.orelse and fa.nodes(lp) \
+                and all(d.kind == "for" and d.stmt is lp for i in ids for d in fa.df.reaching(i, x.id)) \
+                and not any(isinstance(n, ast.Name) and n.id == A.root_name(r) for n in ast.walk(lp.iter)):
+            heads = heads_of(fa, lp)
+            skip, _twice = iteration_counts(fa, heads, ids)
+            if not skip and heads:
+                looped.append((heads, r, "union", unwrap_copy(lp.iter)))
+                continue
+        looped.append((ids, r, kind, x))
+    out = looped
     # s |= a | b  ==  s |= a; s |= b
     flat = []
     for (ids, r, kind, x) in out:
@@ -87,7 +102,7 @@ def set_updates(fa):
             parts = [q for p in parts for q in ((p.left, p.right) if isinstance(p, ast.BinOp) and isinstance(p.op, ast.BitOr) else (p,))]
         for p in parts:
             y = _single(p) if kind == "union" else None
-            flat.append((ids, r, "elem" if y is not None else kind, y if y is not None else p))
+            flat.append((ids, r, "elem" if y is not None else kind, y if y is not None else (unwrap_copy(p) if kind == "union" else p)))
     return flat
 
 
@@ -107,17 +122,15 @@ def prop_sites(fa):
             continue
         cm = A.arg_or_kw(c, 0, P_CALLER)
         rm = A.arg_or_kw(c, 1, P_RESULT)
-        sites.append(Site(c, False, cm, fa.expand(cm, ids[0]) if cm is not None else None, fa.expand(rm, ids[0]) if rm is not None else None, ids[0], [ids]))
+        sites.append(Site(c, False, cm, fa.expand(cm, ids[0]) if cm is not None else None, fa.expand(rm, ids[0]) if rm is not None else None, ids[0], [ids], rm))
     ups = None
-    for c in fa.calls("append"):
+    for pu in pushes(fa):
+        c, recv = pu.node, pu.recv
         ids = fa.nodes(c)
-        recv = A.call_recv(c)
-        if not ids or recv is None or len(c.args) != 1:
-            continue
         X = _strip(expand_alias(fa, recv, ids[0]), INV_LIST)
         if X is None:
             continue
-        Y = _strip(expand_alias(fa, c.args[0], ids[0]), OWN_REF)
+        Y = _strip(expand_alias(fa, pu.elem, ids[0]), OWN_REF)
         adds, merges = [], []
         if Y is not None:
             xt, yt = A.norm(X) + ".function_dependencies", A.norm(Y)
@@ -297,6 +310,12 @@ def _adoptions(rl, pushed):
     return out
 
 
+def _frame_memento_stores(rl, pushed):
+    """Assignments to `<pushed frame>.memento`."""
+    me = pushed + ".memento"
+    return [st for st in rl.stmts(ast.Assign) if rl.nodes(st) and any(isinstance(t, ast.Attribute) and rl.xnorm(t, rl.nodes(st)[0]) == me for t in st.targets)]
+
+
 def _escapes(fa, starts, sites, extra_removed, edge_ok, targets, include_start=True):
     """Can a path from `starts` reach one of `targets` without performing the whole propagation (every one of its
     parts at some site) and without passing `extra_removed`?  Returns the part index that can be skipped, or None."""
@@ -304,7 +323,7 @@ def _escapes(fa, starts, sites, extra_removed, edge_ok, targets, include_start=T
         removed = set(extra_removed)
         for s in sites:
             removed |= set(s.part(k))
-        r = fa.cfg.reach(starts, removed=removed, edge_ok=edge_ok, include_start=include_start)
+        r = sense(fa).reach(starts, removed=removed, edge_ok=edge_ok, include_start=include_start)
         if set(targets) & r:
             return k, removed
     return None
@@ -315,7 +334,7 @@ def _escapes(fa, starts, sites, extra_removed, edge_ok, targets, include_start=T
 # =================================================================================================
 
 def _r1_batch(ck, R1):
-    br = FA(ck, RL + ".LocalRunnerBackend.batch_run")
+    br = nfa(ck, RL + ".LocalRunnerBackend.batch_run")
     seqs = batch_seqs(br)
     ploops = position_loops(br, seqs)
     sites = prop_sites(br)
@@ -346,7 +365,7 @@ def _r1_batch(ck, R1):
         recs = {i for s in sites for i in s.part(0)}
         again = None
         for i in sorted(recs):
-            r = br.cfg.reach([i], removed=set(heads), include_start=False)
+            r = sense(br).reach([i], removed=set(heads), include_start=False)
             if (recs | run_nodes) & r:
                 again = i
         ck.paths_enumerated += 1
@@ -361,13 +380,167 @@ def _r1_batch(ck, R1):
             # the element's own memento out of the bulk answer
             home = enclosing_position(br, ploops, s.anchor)
             dr = br.deps(s.result, s.at)
-            okr = (home is not None and home[1].elem_role(seqs, s.result, s.at) == "bulk") \
+            okr = (home is not None and "bulk" in (home[1].elem_role(seqs, s.result_src, s.at) if s.result_src is not None else None,
+                                                   home[1].elem_role(seqs, s.result, s.at))) \
                 or ("op:subscript" in dr and any(d.startswith("call:get_mementos") for d in dr))
         oki = all(s.parts)
         ck.ob(R1, br.key(s.anchor, "args"), okc and okr and oki, "propagates the stored memento into the calling frame's memento" if okc and okr and oki else
               "batch pre-check propagates the wrong mementos (caller=%s, result=%s)" % (A.norm(s.caller), A.norm(s.result)) if oki else
               "the propagation written out in batch_run is incomplete (invocation appended, but the callee's reference / its dependency set is "
               "not added to the caller's dependencies)", br.where(s.anchor))
+
+
+# =================================================================================================
+# clean-up registered on an exit stack, read as the try/finally it is
+# =================================================================================================
+
+def _is_exit_stack(mod, call):
+    """`ExitStack()` / `contextlib.ExitStack()` with the name bound by the module's imports."""
+    if not (isinstance(call, ast.Call) and not call.args and not call.keywords):
+        return False
+    f = call.func
+    if isinstance(f, ast.Name):
+        return mod.imports.get(f.id) == "contextlib:ExitStack"
+    return isinstance(f, ast.Attribute) and f.attr == "ExitStack" and isinstance(f.value, ast.Name) and mod.imports.get(f.value.id) == "contextlib"
+
+
+def _own_walk(node):
+    """Nodes below `node`, not entering nested function / class / lambda bodies."""
+    stack = list(ast.iter_child_nodes(node))
+    while stack:
+        n = stack.pop()
+        yield n
+        if not isinstance(n, (ast.FunctionDef, ast.AsyncFunctionDef, ast.ClassDef, ast.Lambda)):
+            stack.extend(ast.iter_child_nodes(n))
+
+
+def deferred_written_out(ck, fi):
+    """`fi` with the clean-up calls it registers on a `contextlib.ExitStack` written as what they mean:
+
+        with ExitStack() as S:                 with ExitStack() as S:
+            A                                      A
+            S.callback(F, x, y)        ==>         x', y' = x, y
+            B                                      try: B
+                                                   finally: F(x', y')     (F's body, when F is a helper of this tree)
+
+    An exit stack runs its callbacks when the block is left, however it is left, last registered first, with the
+    arguments as they were at registration, and a callback cannot swallow the exception.  Only the plain form is
+    rewritten: S is bound by `with ExitStack() as S`, is used for nothing but `S.callback(<function>, ...)` statements
+    standing directly in that block; anything else (pop_all, enter_context, push, the stack handed on, a callback
+    registered under a condition) leaves the function as it is — the rules then see no clean-up at all and say so."""
+    import copy
+    from ..inline import Inliner, NotInlinable, _all_names
+    from ..loader import FuncInfo
+    mod = fi.module
+    withs = [w for w in _own_walk(fi.node) if isinstance(w, ast.With) and len(w.items) == 1 and _is_exit_stack(mod, w.items[0].context_expr)
+             and isinstance(w.items[0].optional_vars, ast.Name)]
+    if not withs:
+        return fi
+    node = copy.deepcopy(fi.node)
+    names = _all_names(node)
+    fresh = [0]
+    done = False
+    stores = {}
+    for n in _own_walk(node):
+        if isinstance(n, ast.Name) and isinstance(n.ctx, (ast.Store, ast.Del)):
+            stores[n.id] = stores.get(n.id, 0) + 1
+    for n in ast.walk(node):
+        if n is not node and isinstance(n, (ast.FunctionDef, ast.AsyncFunctionDef, ast.Lambda)):
+            for x in ast.walk(n):
+                if isinstance(x, ast.Nonlocal):
+                    for nm in x.names:
+                        stores[nm] = 2
+    for w in [w for w in _own_walk(node) if isinstance(w, ast.With) and len(w.items) == 1 and _is_exit_stack(mod, w.items[0].context_expr)
+              and isinstance(w.items[0].optional_vars, ast.Name)]:
+        S = w.items[0].optional_vars.id
+        regs = {}
+        for i, st in enumerate(w.body):
+            if isinstance(st, ast.Expr) and isinstance(st.value, ast.Call) and isinstance(st.value.func, ast.Attribute) and st.value.func.attr == "callback" \
+                    and isinstance(st.value.func.value, ast.Name) and st.value.func.value.id == S and st.value.args \
+                    and not any(isinstance(a, ast.Starred) for a in st.value.args) and not any(k.arg is None for k in st.value.keywords) \
+                    and isinstance(st.value.args[0], (ast.Name, ast.Attribute, ast.Lambda)):
+                regs[id(st.value.func.value)] = i
+        mentions = [n for n in _own_walk(node) if isinstance(n, ast.Name) and n.id == S]
+        nested_mentions = [n for f in _own_walk(node) if isinstance(f, (ast.FunctionDef, ast.AsyncFunctionDef, ast.Lambda)) for n in ast.walk(f) if isinstance(n, ast.Name) and n.id == S]
+        if not regs or nested_mentions or any(id(n) not in regs and n is not w.items[0].optional_vars for n in mentions):
+            continue
+        for i in sorted(regs.values(), reverse=True):
+            call = w.body[i].value
+            pre, actual = [], []
+            for a in list(call.args) + [k.value for k in call.keywords]:
+                if isinstance(a, ast.Name) and stores.get(a.id, 0) <= 1:
+                    # bound once: the name still stands for the registered value when the block is left
+                    pre.append(None)
+                    actual.append(a.id)
+                    continue
+                fresh[0] += 1
+                tmp = "deferred__d%d" % fresh[0]
+                while tmp in names:
+                    tmp += "_"
+                names.add(tmp)
+                pre.append(ast.copy_location(ast.Assign(targets=[ast.Name(id=tmp, ctx=ast.Store())], value=a), call))
+                actual.append(tmp)
+            fcall = ast.Call(func=ast.Name(id=actual[0], ctx=ast.Load()), args=[ast.Name(id=t, ctx=ast.Load()) for t in actual[1:len(call.args)]],
+                             keywords=[ast.keyword(arg=k.arg, value=ast.Name(id=t, ctx=ast.Load())) for k, t in zip(call.keywords, actual[len(call.args):])])
+            final = [ast.copy_location(ast.Expr(value=ast.copy_location(fcall, call)), call)]
+            # a helper of this tree is written out where it runs (its parameters stand for the values registered)
+            direct = copy.deepcopy(fcall)
+            direct.func = copy.deepcopy(call.args[0])
+            pre = [x for x in pre[1:] if x is not None]
+            if isinstance(direct.func, ast.Lambda):
+                # a lambda reads its free names when it runs, i.e. when the block is left — like a finally body does
+                from .c15 import _apply_lambda
+                body = _apply_lambda(direct.func, direct)
+                if body is not None:
+                    final = [ast.copy_location(ast.Expr(value=body), call)]
+                else:
+                    final[0].value.func = direct.func
+                try:
+                    final = Inliner(ck.repo).rewrite_list(final, fi, set(names), 0)
+                    names |= {n.id for x in final for n in ast.walk(x) if isinstance(n, ast.Name)}
+                except NotInlinable:
+                    pass
+                tr = ast.copy_location(ast.Try(body=w.body[i + 1:] or [ast.copy_location(ast.Pass(), call)], handlers=[], orelse=[], finalbody=final), w.body[i])
+                w.body[i:] = pre + [tr]
+                done = True
+                continue
+            try:
+                inl = Inliner(ck.repo)
+                r = inl.resolve(direct, fi)
+                if r is not None:
+                    final = inl.expand(direct, r[0], r[1], "drop", None, set(names), 0)
+                    names |= {n.id for x in final for n in ast.walk(x) if isinstance(n, ast.Name)}
+                else:
+                    final[0].value.func = direct.func
+            except NotInlinable:
+                final[0].value.func = direct.func
+            tr = ast.copy_location(ast.Try(body=w.body[i + 1:] or [ast.copy_location(ast.Pass(), call)], handlers=[], orelse=[], finalbody=final), w.body[i])
+            w.body[i:] = pre + [tr]
+            done = True
+    if not done:
+        return fi
+    ast.fix_missing_locations(node)
+    out = FuncInfo(fi.module, node, fi.qual, fi.cls, fi.parent)
+    out.nested = fi.nested
+    return out
+
+
+def _stack_primitive(n):
+    """Non-raising in the sense of fa.log_call, plus `<stack>.depth()` (a len() of the frame list)."""
+    from ..fa import log_call
+    return log_call(n) or (isinstance(n, ast.Call) and isinstance(n.func, ast.Attribute) and n.func.attr == "depth" and not n.args and not n.keywords)
+
+
+def frame_fa(ck, fi, exc_mode=None):
+    from ..cfg import CFG
+    fa = FA(ck, fi, exc_mode=exc_mode)
+    fa._cfg = CFG(fa.node, fa.exc_mode, nonraising=_stack_primitive)
+    return fa
+
+
+def run_local_fa(ck):
+    """memento_run_local as the frame rules read it (see deferred_written_out)."""
+    return frame_fa(ck, normal_form(ck, deferred_written_out(ck, ck.fn(RL + ".memento_run_local"))))
 
 
 class FrameScope:
@@ -438,15 +611,119 @@ class FrameScope:
         return pushed.pop()
 
 
+class StackModel:
+    """What the call stack looks like at each point of a function that pushes its own frame and pops it again.
+    Before the push and after the pop the top of the stack is the CALLER's frame (or the stack is empty: a root call);
+    in between it is the function's own frame.  So
+
+      * `get_calling_frame()` evaluated before the push or after the pop denotes the caller's frame (None for a root
+        call), evaluated in between it denotes the own frame;
+      * `pop_frame()` (after the push) returns the own frame;
+      * `depth() > 1` in between, `depth() > 0` before / after, say "there is a caller".
+
+    Expressions are followed through locals to the call they come from and classified by where that call is evaluated."""
+
+    def __init__(self, fa, push_nodes, pop_nodes, own_ctor=None):
+        self.fa = fa
+        self.push, self.pop = set(push_nodes), set(pop_nodes)
+        self.own_ctor = own_ctor
+        self.after_push = fa.cfg.reach(sorted(self.push), include_start=False)
+        self._before_site = {}
+
+    def outside(self, n):
+        """Is node `n` evaluated while the own frame is not on the stack (no push yet, or popped since)?"""
+        return n not in self.pop and n not in self.push and \
+            all(n not in self.fa.cfg.reach([p], removed=self.pop, include_start=False) for p in self.push)
+
+    def inside(self, n):
+        """... while the own frame is on the stack (after the push, not after a pop)?"""
+        return self.fa.cfg.must_pass(self.push, n) and not any(n in self.fa.cfg.reach([q], include_start=False) for q in self.pop if q != n)
+
+    def _is_stack(self, e, n):
+        return e is not None and self.fa.xnorm(e, n) == "CallStack.get()"
+
+    def leaves(self, e, n):
+        return [(x, m) for (x, m) in origins(self.fa, e, n) if not A.is_none(x)]
+
+    def caller_frame(self, e, n):
+        lv = self.leaves(e, n)
+        return bool(lv) and all(isinstance(x, ast.Call) and A.call_attr(x) == "get_calling_frame" and self._is_stack(A.call_recv(x), m) and self.outside(m)
+                                for (x, m) in lv)
+
+    def own_frame(self, e, n):
+        lv = self.leaves(e, n)
+        return bool(lv) and all((self.own_ctor is not None and x is self.own_ctor)
+                                or (isinstance(x, ast.Call) and A.call_attr(x) == "pop_frame" and self._is_stack(A.call_recv(x), m) and m in self.pop
+                                    and self.fa.cfg.must_pass(self.push, m)) for (x, m) in lv)
+
+    def caller_memento(self, e, n):
+        """The caller's memento, or None when there is no caller."""
+        lv = self.leaves(e, n)
+        return bool(lv) and all(isinstance(x, ast.Attribute) and x.attr == "memento" and self.caller_frame(x.value, m) for (x, m) in lv)
+
+    def own_memento_reads(self, e, n):
+        """[(node where `<own frame>.memento` is read)] when `e` denotes the own frame's memento, else None."""
+        lv = self.leaves(e, n)
+        if lv and all(isinstance(x, ast.Attribute) and x.attr == "memento" and self.own_frame(x.value, m) for (x, m) in lv):
+            return [m for (_x, m) in lv]
+        return None
+
+    def has_caller(self, val):
+        """Atom: every test that says "there is a calling frame" has the value `val`."""
+        fa = self.fa
+
+        def depth_test(t, n):
+            # X.depth() <op> k
+            if isinstance(t, ast.Call) and A.call_attr(t) == "depth" and self._is_stack(A.call_recv(t), n):
+                return True if self.outside(n) else None     # truthy depth with the own frame off the stack
+            if isinstance(t, ast.Compare) and len(t.ops) == 1 and isinstance(t.left, ast.Call) and A.call_attr(t.left) == "depth" \
+                    and self._is_stack(A.call_recv(t.left), n) and isinstance(t.comparators[0], ast.Constant) and type(t.comparators[0].value) is int:
+                k, op = t.comparators[0].value, t.ops[0]
+                base = 0 if self.outside(n) else (1 if self.inside(n) else None)
+                if base is None:
+                    return None
+                if (isinstance(op, ast.Gt) and k == base) or (isinstance(op, ast.GtE) and k == base + 1) or (isinstance(op, ast.NotEq) and k == base):
+                    return True
+                if (isinstance(op, ast.LtE) and k == base) or (isinstance(op, ast.Lt) and k == base + 1) or (isinstance(op, ast.Eq) and k == base):
+                    return False
+            return None
+
+        def f(t, n):
+            if n is None:
+                return None
+            nt = none_test(t)
+            x, v = (nt[0], (not nt[1]) == val) if nt is not None else (t, val)
+            if isinstance(x, ast.NamedExpr):
+                x = x.value
+            if isinstance(x, (ast.Name, ast.Attribute, ast.Call)):
+                try:
+                    if self.caller_frame(x, n) or self.caller_memento(x, n):
+                        return v
+                except AnalysisError:
+                    pass
+            if nt is None:
+                d = depth_test(t, n)
+                if d is not None:
+                    return d == val
+            return None
+        return f
+
+
 def _r1_run_local(ck, R1):
-    rl = FA(ck, RL + ".memento_run_local")
+    rl = run_local_fa(ck)
     sc = FrameScope(ck, rl)
     fa = sc.fa
     pop_nodes = fa.nodes_all(sc.pops)
     sites = prop_sites(fa)
     PUSHED = sc.pushed()
-    no_caller = absent_edges(fa, lambda e, n: sc.text(fa, e, n) == FRAME)
-    edge_ok = not_edges(no_caller)
+    model = None
+    if not sc.scoped:
+        own = [x for p_ in sc.pushes if p_.args and rl.nodes(p_) for (x, _n) in origins(rl, p_.args[0], rl.nodes(p_)[0])]
+        model = StackModel(rl, rl.nodes_all(sc.pushes), pop_nodes, own[0] if len(own) == 1 else None)
+        edge_ok = under(rl, model.has_caller(True), follow_exc=True)
+    else:
+        no_caller = absent_edges(fa, lambda e, n: sc.text(fa, e, n) == FRAME)
+        edge_ok = not_edges(no_caller)
     exits = [fa.cfg.exit, fa.cfg.raise_exit]
     bad = None
     for p in sc.starts:
@@ -457,22 +734,40 @@ def _r1_run_local(ck, R1):
           "every exit after the push propagates stack_frame.memento to the caller (if any)" if bad is None and sites else
           "memento_run_local can exit without propagating its memento to the calling frame", rl.where())
     lookups = {}
+    adopt_nodes = set(rl.nodes_all(_frame_memento_stores(rl, PUSHED)))
     for s in sites:
-        okc = s.caller is not None and isinstance(s.caller, ast.Attribute) and s.caller.attr == "memento" and sc.text(fa, s.caller.value, s.at) == FRAME \
-            and s.result is not None and sc.text(fa, s.result, s.at) == PUSHED + ".memento" and all(s.parts)
         # pop precedes the propagation
         okp = all(fa.cfg.must_pass(pop_nodes, i) for i in s.all_nodes())
-        ck.ob(R1, fa.key(s.anchor, "args"), okc and okp, "after the pop, stack_frame.memento is propagated into the new top frame" if okc and okp else
-              "propagation in memento_run_local does not pass (calling_frame.memento, stack_frame.memento) after the pop", fa.where(s.anchor))
-        # the caller is looked up after the pop: every get_calling_frame() the caller memento is computed from
+        if model is not None and not s.inline and s.caller_src is not None and s.result_src is not None:
+            # decided on what the expressions denote given where the stack operations they come from are evaluated
+            reads = model.own_memento_reads(s.result_src, s.at)
+            okc = model.caller_memento(s.caller_src, s.at) and reads is not None
+            # ... and the own frame's memento is read when it is final: no replacement of it between the read and here
+            here = set(s.all_nodes())
+            before = {i for i in rl.cfg.reachable_nodes() if here & rl.cfg.reach([i], include_start=False)} | here
+            okt = reads is not None and not any(adopt_nodes & before & rl.cfg.reach([m], include_start=False) for m in reads if m not in here)
+        else:
+            okc = s.caller is not None and isinstance(s.caller, ast.Attribute) and s.caller.attr == "memento" and sc.text(fa, s.caller.value, s.at) == FRAME \
+                and s.result is not None and sc.text(fa, s.result, s.at) == PUSHED + ".memento" and all(s.parts)
+            okt = True
+            if model is not None and s.result_src is not None:
+                reads = model.own_memento_reads(s.result_src, s.at)
+                here = set(s.all_nodes())
+                before = {i for i in rl.cfg.reachable_nodes() if here & rl.cfg.reach([i], include_start=False)} | here
+                okt = reads is None or not any(adopt_nodes & before & rl.cfg.reach([m], include_start=False) for m in reads if m not in here)
+        ck.ob(R1, fa.key(s.anchor, "args"), okc and okp and okt, "after the pop, stack_frame.memento is propagated into the new top frame" if okc and okp and okt else
+              ("propagation in memento_run_local does not pass (calling_frame.memento, stack_frame.memento) after the pop" if not (okc and okp) else
+               "the frame's memento is read before the served path may replace it: what propagates is the fresh record, not the stored one with its "
+               "dependency set"), fa.where(s.anchor))
+        # the caller is looked up while the own frame is not on the stack: every get_calling_frame() the caller memento is computed from
         if s.caller_src is not None:
             for i in s.part(0):
                 for (call, n) in feeding_calls(fa, s.caller_src, i, "get_calling_frame"):
                     ent = lookups.setdefault(id(call), [call, True])
-                    ent[1] = ent[1] and fa.cfg.must_pass(pop_nodes, n)
+                    ent[1] = ent[1] and (model.outside(n) if model is not None else fa.cfg.must_pass(pop_nodes, n))
     for (call, okq) in lookups.values():
-        ck.ob(R1, fa.key(call, "lookup-after-pop"), okq, "the caller is looked up after the own frame was popped" if okq else
-              "the calling frame is looked up before the own frame is popped: the function would propagate into itself", fa.where(call))
+        ck.ob(R1, fa.key(call, "lookup-after-pop"), okq, "the caller is looked up while the own frame is not on the stack" if okq else
+              "the calling frame is looked up while the own frame is on top of the stack: the function would propagate into itself", fa.where(call))
     # served path: the frame's memento is replaced by the stored memento before returning
     served = [r for r in rl.returns() if r.value is not None and rl.nodes(r) and "call:process_existing_memento" in rl.deps(r.value)]
     ck.need(served, "memento_run_local: no 'served from store' return found")
@@ -482,11 +777,14 @@ def _r1_run_local(ck, R1):
         return bool(lv) and all(isinstance(x, ast.Call) and A.call_attr(x) == "get_memento" and A.norm(A.call_recv(x)) == "storage_backend" for (x, _n) in lv)
     asg = [s for s in rl.stmts(ast.Assign) if rl.nodes(s) and any(isinstance(t, ast.Attribute) and rl.xnorm(t, rl.nodes(s)[0]) == PUSHED + ".memento" for t in s.targets)
            and stored(s.value, rl.nodes(s)[0]) and (sc.with_stmt is None or rl.inside(s, sc.with_stmt))]
+    an = rl.nodes_all(asg)
     for r in served:
-        oks = bool(asg) and all(rl.cfg.must_pass(rl.nodes_all(asg), i) for i in rl.nodes(r))
+        # where the served value is committed: the return itself, or the binding of the local that is returned later
+        commits = sorted({m for i in rl.nodes(r) for (x, m) in origins(rl, r.value, i) if "call:process_existing_memento" in rl.deps(x, m)}) or rl.nodes(r)
+        oks = bool(asg) and all(rl.cfg.must_pass(an, i) or rl.cfg.always_reaches(i, an, [rl.cfg.exit, rl.cfg.raise_exit]) for i in commits)
         if asg and not oks:
             # the replacement and the return may sit under two tests of the same condition
-            oks = consistent_walk(rl, rl.nodes(r), avoid=rl.nodes_all(asg)) == []
+            oks = consistent_walk(rl, commits, avoid=an) == []
         ck.ob(R1, rl.key(None, "served-memento-replaces"), oks, "the stored memento (with its stored dependency set) is what propagates" if oks else
               "a served result propagates the fresh, empty frame memento instead of the stored one: transitive dependencies are lost", rl.where(r))
     # ... and only then: while the invocation is (still going to be) computed, the frame's memento is the fresh record
@@ -517,21 +815,26 @@ def _r1_run_local(ck, R1):
 # =================================================================================================
 
 def _r2(ck, R2):
-    rl = FA(ck, RL + ".memento_run_local")
+    rl = run_local_fa(ck)
     sc = FrameScope(ck, rl)
     pushes = sc.pushes
     if not sc.scoped:
         push_nodes = rl.nodes_all(pushes)
         pop_nodes = rl.nodes_all(sc.pops)
         exits = [rl.cfg.exit, rl.cfg.raise_exit]
-        okt = True
-        why = ""
-        for pc in pushes:
-            trys = [t for t in rl.stmts(ast.Try) if t.finalbody and any(rl.inside(pc, b) for b in t.body)]
-            has_pop = any(any(isinstance(n, ast.Call) and A.call_attr(n) == "pop_frame" for s in t.finalbody for n in A.walk_local(s)) for t in trys)
-            if not has_pop:
+        # the push is protected: once the frame is on the stack nothing that can fail — judged on the graph in which
+        # every call / subscript may raise — leads out of the function without passing a pop (a try whose finally pops
+        # and that starts right at the push, a push directly in front of such a try, a context manager / exit stack
+        # written out as one, a clean-up call in front of every exit and in a catch-all handler are all the same here)
+        rx = rl if rl.exc_mode == "all" else frame_fa(ck, rl.fi, exc_mode="all")
+        xpush = rx.nodes_all(rx.calls("push_frame"))
+        xpop = rx.nodes_all(rx.calls("pop_frame"))
+        okt = bool(xpush) and bool(xpop)
+        for p in xpush:
+            if {rx.cfg.exit, rx.cfg.raise_exit} & rx.cfg.reach([p], removed=xpop, include_start=False):
                 okt = False
-                why = "push_frame is not inside the try whose finally pops"
+        why = "push_frame is not inside the try whose finally pops"
+        ck.paths_enumerated += len(xpush)
         ck.ob(R2, rl.key(None, "push-in-try"), okt, "push is protected by try/finally-pop" if okt else why, rl.where(pushes[0]))
         leak = None
         for p in push_nodes:
@@ -583,34 +886,40 @@ def _r2(ck, R2):
 # R3
 # =================================================================================================
 
-def _passes_unless_member(pd, add_nodes, elems):
-    """Every path to the exit performs the add, except paths on which a test established that the
-    element is already a member (adding would be a no-op)."""
-    elems = set(elems)
-    member_tests = [n.id for n in pd.cfg.nodes if n.kind == "test" and isinstance(n.ast, ast.Compare) and len(n.ast.ops) == 1
-                    and isinstance(n.ast.ops[0], ast.In) and A.norm(n.ast.left) in elems]
-    r = pd.cfg.reach([pd.cfg.entry], removed=add_nodes, edge_ok=lambda s, d, l: not (s in member_tests and l == "T"))
-    return pd.cfg.exit not in r
-
-
 def _r3(ck, R3):
-    pd = FA(ck, RL + ".propagate_dependencies")
+    pd = nfa(ck, RL + ".propagate_dependencies")
     P_CALLER, P_RESULT = _pd_params(ck)
-    CALLER_DEPS = "attr:%s.function_dependencies" % P_CALLER
-    app = [c for c in pd.calls("append") if pd.nodes(c) and c.args and A.call_recv(c) is not None
-           and "attr:%s.invocation_metadata.invocations" % P_CALLER in pd.deps(A.call_recv(c))]
-    ok1 = bool(app) and all("attr:%s.invocation_metadata.fn_reference_with_args" % P_RESULT in pd.deps(c.args[0]) for c in app) \
-        and pd.cfg.must_pass(pd.nodes_all(app), pd.cfg.exit)
+    INV = "%s.invocation_metadata.invocations" % P_CALLER
+    DEPS = "%s.function_dependencies" % P_CALLER
+    REF = "%s.invocation_metadata.fn_reference_with_args" % P_RESULT
+    # what is recorded is decided on the objects the expressions denote (temporaries and aliases followed), not on
+    # which statement form grows the list / the set
+    app = [pu for pu in pushes(pd) if alias_text(pd, pu.recv, pd.nodes(pu.node)[0]) == INV]
+    ok1 = bool(app) and all(alias_text(pd, pu.elem, pd.nodes(pu.node)[0]) == REF for pu in app) \
+        and pd.cfg.must_pass(pd.nodes_all(pu.node for pu in app), pd.cfg.exit)
     ck.ob(R3, pd.key(None, "appends-invocation"), ok1, "the callee's reference-with-arguments is appended to the caller's invocations" if ok1 else
           "propagate_dependencies does not append the callee invocation to the caller's invocation list", pd.where())
-    ups = [(ids, r, kind, x) for (ids, r, kind, x) in set_updates(pd) if CALLER_DEPS in pd.deps(r, ids[0])]
+    ups = [(ids, r, kind, x) for (ids, r, kind, x) in set_updates(pd) if alias_text(pd, r, ids[0]) == DEPS]
     adds = [(ids, x) for (ids, r, kind, x) in ups if kind == "elem"]
-    ok2 = bool(adds) and all("attr:%s.invocation_metadata.fn_reference_with_args.fn_reference" % P_RESULT in pd.deps(x, ids[0]) for (ids, x) in adds) \
-        and _passes_unless_member(pd, [i for (ids, x) in adds for i in ids], [A.norm(x) for (ids, x) in adds])
+    ok2 = bool(adds) and all(alias_text(pd, x, ids[0]) == REF + ".fn_reference" for (ids, x) in adds)
+    if ok2:
+        # every path performs the add, except paths on which a test established that the reference is a member already
+        add_nodes = {i for (ids, x) in adds for i in ids}
+
+        def member(val):
+            def f(e, n):
+                if isinstance(e, ast.Compare) and len(e.ops) == 1 and isinstance(e.ops[0], (ast.In, ast.NotIn)) \
+                        and alias_text(pd, e.left, n) == REF + ".fn_reference" and alias_text(pd, e.comparators[0], n) == DEPS:
+                    return val == isinstance(e.ops[0], ast.In)
+                return None
+            return f
+        ok2 = pd.cfg.exit not in pd.cfg.reach([pd.cfg.entry], removed=add_nodes, edge_ok=under(pd, member(False)))
+        ck.paths_enumerated += 1
     ck.ob(R3, pd.key(None, "adds-callee"), ok2, "the callee's function reference joins the caller's dependency set" if ok2 else
           "propagate_dependencies does not add the callee's function reference to the caller's dependencies", pd.where())
-    merges = [ids for (ids, r, kind, x) in ups if kind == "union" and "attr:%s.function_dependencies" % P_RESULT in pd.deps(x, ids[0])]
-    okm = bool(merges) and pd.cfg.must_pass([i for ids in merges for i in ids], pd.cfg.exit)
+    merges = [(ids, x) for (ids, r, kind, x) in ups if kind == "union"]
+    okm = bool(merges) and all(alias_text(pd, x, ids[0]) == "%s.function_dependencies" % P_RESULT for (ids, x) in merges) \
+        and pd.cfg.must_pass([i for (ids, x) in merges for i in ids], pd.cfg.exit)
     ck.ob(R3, pd.key(None, "merges-transitive"), okm, "the callee's transitive dependencies are merged into the caller's on every path" if okm else
           "propagate_dependencies can return without merging the callee's dependency set (early return / missing union): when the same function is "
           "called twice with arguments that reach different functions, or recursively, transitive dependencies are lost", pd.where())
@@ -620,8 +929,8 @@ def _r3(ck, R3):
 # R4
 # =================================================================================================
 
-def _ctor_arg(ck, fa, call, init_qual, name):
-    """The (expanded) argument a constructor call binds to parameter `name`, keyword or positional."""
+def _ctor_arg_raw(ck, call, init_qual, name):
+    """The argument expression (as written) a constructor call binds to parameter `name`, keyword or positional."""
     v = A.kwarg(call, name)
     if v is None:
         init = ck.repo.try_func(init_qual)
@@ -629,25 +938,110 @@ def _ctor_arg(ck, fa, call, init_qual, name):
             params = [a.arg for a in init.node.args.posonlyargs + init.node.args.args][1:]
             if name in params:
                 v = A.arg_or_kw(call, params.index(name), name)
+    return v
+
+
+def _ctor_arg(ck, fa, call, init_qual, name):
+    """The (expanded) argument a constructor call binds to parameter `name`, keyword or positional."""
+    v = _ctor_arg_raw(ck, call, init_qual, name)
     return fa.expand(v, fa.nodes(call)[0]) if v is not None else None
 
 
+def _display_elements(e):
+    """The elements of a set / list written as a display or built from one: {a}, set(), set([a]), set((a,)), [] ..."""
+    if isinstance(e, (ast.Set, ast.List)) and not any(isinstance(x, ast.Starred) for x in e.elts):
+        return list(e.elts)
+    if isinstance(e, ast.Call) and isinstance(e.func, ast.Name) and e.func.id in ("set", "list") and not e.keywords:
+        if not e.args:
+            return []
+        if len(e.args) == 1 and isinstance(e.args[0], (ast.Set, ast.List, ast.Tuple)) and not any(isinstance(x, ast.Starred) for x in e.args[0].elts):
+            return list(e.args[0].elts)
+    return None
+
+
+class Built:
+    """A container a constructor builds for one field: the one place it is created (`leaf`, a display evaluated in
+    this function) and everything the function puts into it before it returns — through the local it was bound to or
+    through the field path it ends up under."""
+
+    def __init__(self, fa, expr, at, field_path):
+        self.fa = fa
+        self.leaf = self.at = None
+        self.elems = None      # [(expression, node)] or None (contents not known)
+        lv = origins(fa, expr, at) if expr is not None else []
+        if len(lv) != 1:
+            return
+        self.leaf, self.at = lv[0]
+        first = _display_elements(self.leaf)
+        if first is None:
+            return
+        elems = [(x, self.at) for x in first]
+
+        def is_it(r, n):
+            if isinstance(r, ast.Name):
+                o = origins(fa, ast.Name(id=r.id, ctx=ast.Load()), n)
+                return len(o) == 1 and o[0][0] is self.leaf
+            return alias_text(fa, r, n) == field_path
+        grown = [(ids, kind, x) for (ids, r, kind, x) in set_updates(fa) if is_it(r, ids[0])]
+        grown += [(fa.nodes(pu.node), "elem", pu.elem) for pu in pushes(fa) if is_it(pu.recv, fa.nodes(pu.node)[0])]
+        for (ids, kind, x) in grown:
+            more = [x] if kind == "elem" else _display_elements(x)
+            if more is None or not fa.cfg.must_pass(ids, fa.cfg.exit):
+                return      # grown by something unknown / on some paths only
+            elems += [(y, ids[0]) for y in more]
+        self.elems = elems
+
+    def texts(self):
+        return None if self.elems is None else sorted({self.fa.xnorm(x, n) for (x, n) in self.elems})
+
+
+def _mutable_default_reaches_record(ck, module):
+    """A helper of the module that builds (part of) the record from a parameter whose default value is one shared
+    mutable object (`def f(..., items=[])`): every call that leaves the parameter out uses the same list / set."""
+    inl = getattr(ck.repo, "inliner", None)
+    for fi in list(getattr(inl, "new", []) or []):
+        if fi.module.name != module:
+            continue
+        a = fi.node.args
+        pos = a.posonlyargs + a.args
+        shared = [p.arg for p, d in list(zip(pos[len(pos) - len(a.defaults):], a.defaults)) + [(p, d) for p, d in zip(a.kwonlyargs, a.kw_defaults) if d is not None]
+                  if _display_elements(d) is not None or isinstance(d, (ast.Dict, ast.ListComp, ast.SetComp, ast.DictComp))
+                  or (isinstance(d, ast.Call) and isinstance(d.func, ast.Name) and d.func.id in ("dict", "defaultdict", "deque"))]
+        if not shared:
+            continue
+        g = FA(ck, fi)
+        for c in g.calls():
+            if A.call_attr(c) in ("InvocationMetadata", "Memento") and g.nodes(c):
+                for v in list(c.args) + [k.value for k in c.keywords]:
+                    hit = [p for p in shared if "param:" + p in g.deps(v, g.nodes(c)[0])]
+                    if hit:
+                        return fi, hit[0]
+    return None
+
+
 def _r4(ck, R4):
-    sfi = FA(ck, "call_stack.StackFrame.__init__")
+    sfi = nfa(ck, "call_stack.StackFrame.__init__")
     OWN = sfi.fi.params[1] if len(sfi.fi.params) > 1 else "fn_reference_with_args"
     mc = sfi.one([c for c in sfi.calls("Memento") if sfi.nodes(c)], "Memento(...) construction")
-    fd = _ctor_arg(ck, sfi, mc, "metadata.Memento.__init__", "function_dependencies")
-    if isinstance(fd, ast.Call) and isinstance(fd.func, ast.Name) and fd.func.id == "set" and len(fd.args) == 1 and isinstance(fd.args[0], (ast.List, ast.Tuple, ast.Set)):
-        fd = ast.Set(elts=fd.args[0].elts)
-    ok4 = isinstance(fd, ast.Set) and len(fd.elts) == 1 and A.norm(fd.elts[0]) == OWN + ".fn_reference"
+    at = sfi.nodes(mc)[0]
+    # the record as it stands when the constructor returns: what the dependency set was created with plus what was
+    # added to it on the way (`deps = set(); deps.add(ref.fn_reference)` and `{ref.fn_reference}` are the same record)
+    fd = Built(sfi, _ctor_arg_raw(ck, mc, "metadata.Memento.__init__", "function_dependencies"), at, "self.memento.function_dependencies")
+    ok4 = fd.texts() == [OWN + ".fn_reference"]
     ck.ob(R4, sfi.key(None, "self-in-deps"), ok4, "the dependency set starts as {own function reference}" if ok4 else
-          "a new frame's dependency set does not start as {its own function reference} (%s)" % A.norm(fd), sfi.where(mc))
+          "a new frame's dependency set does not start as {its own function reference} (%s)" % (", ".join(fd.texts()) if fd.texts() is not None else A.norm(fd.leaf)),
+          sfi.where(mc))
     im = sfi.one([c for c in sfi.calls("InvocationMetadata") if sfi.nodes(c)], "InvocationMetadata(...) construction")
+    iat = sfi.nodes(im)[0]
     IMI = "metadata.InvocationMetadata.__init__"
-    inv, res, fr = (_ctor_arg(ck, sfi, im, IMI, n) for n in ("invocations", "resources", "fn_reference_with_args"))
-    ok5 = isinstance(inv, ast.List) and not inv.elts and isinstance(res, ast.List) and not res.elts
+    inv = Built(sfi, _ctor_arg_raw(ck, im, IMI, "invocations"), iat, "self.memento.invocation_metadata.invocations")
+    res = Built(sfi, _ctor_arg_raw(ck, im, IMI, "resources"), iat, "self.memento.invocation_metadata.resources")
+    shared = _mutable_default_reaches_record(ck, "call_stack")
+    ok5 = inv.texts() == [] and res.texts() == [] and isinstance(inv.leaf, ast.List) and isinstance(res.leaf, ast.List) and inv.leaf is not res.leaf and shared is None
     ck.ob(R4, sfi.key(None, "fresh-lists"), ok5, "invocations and resources start as fresh empty lists" if ok5 else
-          "a new frame does not start with fresh empty invocation/resource lists", sfi.where(im))
+          ("a new frame does not start with fresh empty invocation/resource lists" if shared is None else
+           "the frame's record is built from parameter `%s` of %s, whose default value is one list shared by every frame" % (shared[1], shared[0].qual)), sfi.where(im))
+    fr = _ctor_arg(ck, sfi, im, IMI, "fn_reference_with_args")
     ok6 = fr is not None and A.norm(fr) == OWN
     ck.ob(R4, sfi.key(None, "own-reference"), ok6, "the memento records the invocation's own reference" if ok6 else
           "the frame memento does not record the invocation's own reference", sfi.where(im))
@@ -658,24 +1052,32 @@ def _r4(ck, R4):
 # =================================================================================================
 
 def _r5(ck, R5):
-    rf = FA(ck, "resource_function.ResourceFunction.__call__")
+    rf = nfa(ck, "resource_function.ResourceFunction.__call__")
     RES = FRAME + ".memento.invocation_metadata.resources"
-    apps = [c for c in rf.calls("append") if rf.nodes(c) and len(c.args) == 1 and A.call_recv(c) is not None
-            and alias_text(rf, A.call_recv(c), rf.nodes(c)[0]) == RES]
+    with_frame = presence_atom(is_calling_frame(rf), True)
+
+    def sink(pu):
+        # what is appended to when there is a calling frame (`frame.memento...resources if frame else []`)
+        e, n = choose(rf, pu.recv, rf.nodes(pu.node)[0], with_frame)
+        return alias_text(rf, e, n)
+    apps = [pu for pu in pushes(rf) if sink(pu) == RES]
     no_caller = absent_edges(rf, is_calling_frame(rf))
     rets = [r for r in rf.returns() if r.value is not None and rf.nodes(r)]
     okr = bool(apps) and bool(rets)
     if okr:
-        an = rf.nodes_all(apps)
+        an = rf.nodes_all(pu.node for pu in apps)
         # a handle is returned to a caller that has a frame only after it was appended to that frame's resources ...
         live = rf.cfg.reach([rf.cfg.entry], removed=an, edge_ok=not_edges(no_caller))
         okr = not (set(rf.nodes_all(rets)) & live)
-        # ... and what is appended is what is returned
+        # ... and what is appended is what is returned: the same evaluation, not an equal-looking second one
         with_caller = rf.cfg.reach([rf.cfg.entry], edge_ok=not_edges(no_caller))
-        appended = {rf.xnorm(c.args[0], rf.nodes(c)[0]) for c in apps}
+
+        def made(e, n):
+            return frozenset(id(x) for (x, _n) in origins(rf, e, n))
+        appended = {made(pu.elem, rf.nodes(pu.node)[0]) for pu in apps}
         for r in rets:
             if set(rf.nodes(r)) & with_caller:
-                okr = okr and rf.xnorm(r.value, rf.nodes(r)[0]) in appended
+                okr = okr and made(r.value, rf.nodes(r)[0]) in appended
         ck.paths_enumerated += 2
     ck.ob(R5, rf.key(None, "appends-handle"), okr, "the returned handle is appended to the calling frame's resources" if okr else
           "a resource handle can be returned without being recorded in the calling frame's memento", rf.where())
@@ -686,7 +1088,7 @@ def _r5(ck, R5):
 # =================================================================================================
 
 def _r6(ck, R6):
-    cb = FA(ck, "base.MementoFunctionBase.call_batch")
+    cb = nfa(ck, "base.MementoFunctionBase.call_batch")
     _run, _seqs, _arg, elts = call_batch_dispatch(cb)
     ok = bool(elts)
     ck.ob(R6, cb.key(None, "dispatches-all-elements"), ok, "every requested element is submitted, duplicates included" if ok else
